@@ -62,14 +62,14 @@ def run(chk):
     numba.set_num_threads(2)      # tiny arrays: thread fan-out only costs time here (C11 varies the thread count)
     tier = chk.tier
     maxn = 4 if tier == 'quick' else 5
-    chk.rule = ('TLC enumerates every multiset of 2..MaxN observations <<x, v>>, x in 0..3, v in {0,1,2,5} with declared classes <<0,2,1>> and <<7,1,0,2>> '
-                '(5 undeclared, 7 always empty); one evaluation = one result entry of one real distinguisher (metric x precision x presentation) compared with the '
+    chk.rule = ('TLC enumerates every multiset of 2..MaxN observations <<x, v>>, x in 0..3, v in {0,1,2,5} with declared classes <<0,2,1>> and <<7,1,2>> '
+                '(5 undeclared; with the second list also 0, below the smallest class; 7 always empty); one evaluation = one result entry of one real distinguisher (metric x precision x presentation) compared with the '
                 'exact rational TLC derived from the definition; plus driver-proposed unbalanced multi-word datasets (3..12 declared classes, automatic class sets)')
     chk.assumptions += ['integer-valued samples (also shifted / scaled presentations: the three ratios are invariant)',
                         'tolerance = 64 eps x cancellation factor (sum of squares / smallest non-zero sum-of-squares component) computed from the data',
                         'harness memoises partitioned._define_lut_func per class list']
     invs = ['ClassLemmas', 'ClassOrderIrrelevant', 'ExtraClassIrrelevant', 'NoInfinity']
-    for cl in ([0, 2, 1], [7, 1, 0, 2]):
+    for cl in ([0, 2, 1], [7, 1, 2]):         # second list: 0 is undeclared and BELOW the smallest class, 5 undeclared in between, 7 always empty
         st.enum_run(chk, 'classes', maxn, 2, range(4), [0, 1, 2, 5], cl, False, invs, f'MC:classes{cl}')
         r = st.enum_run(chk, 'classes', maxn, 2, range(4), [0, 1, 2, 5], cl, True, [], f'GEN:classes{cl}')
         for i, e in enumerate(r.emits()):
@@ -141,6 +141,26 @@ def bigger(chk):
                     check_entry(chk, metric, prec, got[w, s], r, kappa, {'case': case, 'auto_first_batch_max': autos[ci], 'entry': [w, s], 'trace_dtype': dt, 'pres': [dt, sh, sc], 'split': bool(ci % 2 == 1 and autos[ci] is None), 'key': ('B', ci, j)})
         chk.traces_validated += 1
     chk.sample({'unbalanced_case': {'classes': cases[0]['c']['classes'], 'rows': cases[0]['rows'][:4]}})
+    # many data words: the result for a word depends on that word's column only (the definition is per (word, sample)), so a case whose words are
+    # the columns of a small TLC-evaluated case repeated cyclically has the small case's results, cyclically - 1100 and 2500 words, two updates
+    for ci in [i for i, a_ in enumerate(autos) if a_ is None and cases[i]['c']['W'] >= 2][:2 if chk.tier == 'quick' else 6]:
+        case, rs = cases[ci], res[ci]
+        c, rows = case['c'], case['rows']
+        t = np.array([r['t'] for r in rows], dtype='int16')
+        d0 = np.array([r['d'] for r in rows], dtype='uint16')
+        for Wbig in (1100, 2500):
+            sel = [j % c['W'] for j in range(Wbig)]
+            d = d0[:, sel]
+            for metric in ('f', 'nicv', 'snr'):
+                got = run_obj(CLS[metric], 'float64', t, d, c['classes'], split=True)
+                chk.count(('manywords', ci, Wbig, metric), nontrivial=True)
+                want = np.array([[np.nan if st.frac(rs[metric][w * c['S'] + s_]) is None else float(st.frac(rs[metric][w * c['S'] + s_])) for s_ in range(c['S'])] for w in sel])
+                ok = got.shape == want.shape and np.allclose(got, want, rtol=1e-9, atol=1e-12, equal_nan=True)
+                if not ok:
+                    w_bad = int(np.nonzero(~np.isclose(got, want, rtol=1e-9, atol=1e-12, equal_nan=True).all(axis=1))[0][0]) if got.shape == want.shape else -1
+                    chk.violation(f'{CLS[metric]}:result equals its definition over the non-empty value classes (many data words)',
+                                  {'property': 'C04', 'case': case, 'words': Wbig, 'first_bad_word': w_bad, 'cls': CLS[metric], 'precision': 'float64'}, f'{CLS[metric]} with {Wbig} data words: word {w_bad} differs from its definition')
+        chk.traces_validated += 1
 
 
 def replay(chk, path):
